@@ -8,6 +8,8 @@ use std::collections::BTreeMap;
 use std::path::{Path, PathBuf};
 
 pub const SITE: &str = ".venv/lib/python3.11/site-packages";
+/// Other places a virtualenv keeps its packages (relative to the venv directory, without `/site-packages`)
+pub const VENV_LAYOUTS: [&str; 3] = ["lib/python3.9", "lib/pypy3.10", "Lib"];
 
 #[derive(Clone, Debug, Serialize, Deserialize, PartialEq, Default)]
 pub struct WsSpec {
@@ -47,18 +49,33 @@ impl WsSpec {
         p
     }
     /// Write the tree.  Returns the workspace root.
+    /// Where a spec path lives on disk: specs always name the virtualenv's library directory `SITE`; an `extra` entry
+    /// `("@venv-layout", "lib/pypy3.10")` moves it (other interpreter versions, PyPy, the Windows layout).  `dbsnap::rel`
+    /// maps the paths the index reports back to `SITE`, so models and oracles never see the difference.
+    pub fn disk_rel(&self, rel: &str) -> String {
+        if let Some((_, layout)) = self.extra.iter().find(|(k, _)| k == "@venv-layout") {
+            if let Some(rest) = rel.strip_prefix(SITE) {
+                return format!(".venv/{}/site-packages{}", layout, rest);
+            }
+        }
+        rel.to_string()
+    }
+
     pub fn materialise(&self, sandbox_root: &Path) -> PathBuf {
         let root = self.root_in(sandbox_root);
         std::fs::create_dir_all(&root).expect("create workspace root");
         for f in &self.files {
-            let p = root.join(&f.rel);
+            let p = root.join(self.disk_rel(&f.rel));
             if let Some(d) = p.parent() {
                 let _ = std::fs::create_dir_all(d);
             }
             std::fs::write(&p, render(&f.items).text).expect("write py file");
         }
         for (rel, content) in &self.extra {
-            let p = if rel.starts_with('/') { PathBuf::from(rel) } else { root.join(rel) };
+            if rel.starts_with('@') {
+                continue; // a directive, not a file
+            }
+            let p = if rel.starts_with('/') { PathBuf::from(rel) } else { root.join(self.disk_rel(rel)) };
             if let Some(d) = p.parent() {
                 let _ = std::fs::create_dir_all(d);
             }
